@@ -159,6 +159,36 @@ func (g *caseGen) saveOp() string {
 	return fmt.Sprintf("S %s %d %d %d %d", kind, ovr, oh, ci, during)
 }
 
+// T: the save runs from inside the pending task
+func (g *caseGen) saveInTaskOp() string {
+	f := strings.Fields(g.saveOp())
+	return fmt.Sprintf("T %d %s %s %s %s", 1+g.r.Intn(4), f[1], f[2], f[3], f[4])
+}
+
+// on-disk: a periodic sync, then one task applied entry by entry (it contains an
+// empty entry or a config change) with the save running from inside it, then a
+// crash that loses whatever was not synced
+func (g *caseGen) midTaskScenario() {
+	g.ops = append(g.ops, "b", "y")
+	n := 2 + g.r.Intn(5)
+	special := g.r.Intn(n)
+	for i := 0; i < n; i++ {
+		if i == special {
+			if g.r.Bool() {
+				g.entry("a 0 0 0 -")
+			} else {
+				g.randomCC()
+			}
+		} else {
+			g.sessionEntry()
+		}
+	}
+	g.ops = append(g.ops, fmt.Sprintf("T %d r %d %d 0", 1+g.r.Intn(n), g.r.Intn(2), g.r.Intn(3)))
+	if g.r.Chance(3, 4) {
+		g.ops = append(g.ops, fmt.Sprintf("R %d 0 %d", []int{0, 0, 1, 3}[g.r.Intn(4)], g.r.Intn(3)))
+	}
+}
+
 func genCase(r *vh.Rand, id string, size int) string {
 	g := &caseGen{r: r, members: map[uint64]int{1: 0, 2: 0}, nextRep: 2}
 	g.kind = []string{"reg", "reg", "conc", "disk"}[r.Intn(4)]
@@ -195,17 +225,31 @@ func genCase(r *vh.Rand, id string, size int) string {
 				g.ops = append(g.ops, "y")
 			}
 		case x < 88:
-			g.ops = append(g.ops, g.saveOp())
+			switch {
+			case g.kind != "reg" && r.Chance(1, 3):
+				g.ops = append(g.ops, g.saveInTaskOp())
+			case g.kind == "disk" && r.Chance(1, 6):
+				g.midTaskScenario()
+			default:
+				g.ops = append(g.ops, g.saveOp())
+			}
 			savedSince = true
 		case x < 94:
 			if savedSince || r.Chance(1, 4) {
-				g.ops = append(g.ops, fmt.Sprintf("R %d %d %d", []int{0, 0, 1, 2, 5, 1000}[r.Intn(6)], r.Intn(2), []int{0, 0, 1, 2, 3}[r.Intn(5)]))
+				if g.kind == "disk" && r.Chance(1, 3) {
+					// restart with the state machine ahead of the snapshot, stream requests while it replays
+					g.ops = append(g.ops, fmt.Sprintf("W %d 1 %d", []int{0, 0, 1, 3}[r.Intn(4)], []int{0, 0, 2, 5, 1000}[r.Intn(5)]))
+				} else {
+					g.ops = append(g.ops, fmt.Sprintf("R %d %d %d", []int{0, 0, 1, 2, 5, 1000}[r.Intn(6)], r.Intn(2), []int{0, 0, 1, 2, 3}[r.Intn(5)]))
+				}
 			}
 		case x < 96:
 			g.ops = append(g.ops, "L")
 		case x < 99:
 			if g.kind != "disk" {
 				g.ops = append(g.ops, fmt.Sprintf("I %d %d", []int{0, 0, 1, 3, 1000}[r.Intn(5)], []int{0, 0, 1, 2}[r.Intn(4)]))
+			} else {
+				g.ops = append(g.ops, fmt.Sprintf("M %d %d", []int{0, 0, 1, 3, 1000}[r.Intn(5)], []int{0, 0, 1, 4, 1000}[r.Intn(5)]))
 			}
 		default:
 			if r.Chance(1, 10) {
